@@ -268,7 +268,8 @@ MANIFEST_TEXT = {
     },
     "C10": {
         "text": "framer_roundtrip: for all frame sequences and all segmentations the model of STUNConn.ReadFrom returns exactly the frames, in order, one per call, "
-                "promptly; read_consumes and garbage_is_error for every input; bindconn_split_independent / bindconn_exact: the client's reading of the ConnectionBind reply "
+                "promptly; readloop_exact / readloop_segmentation_independent / readloop_truncated: the whole stream read loop yields exactly the frames and then EOF under every two "
+                "segmentations of the same stream, and a stream cut inside a frame never yields the partial frame; read_consumes and garbage_is_error for every input; bindconn_split_independent / bindconn_exact: the client's reading of the ConnectionBind reply "
                 "(exactly the header, exactly the announced body, the rest left for the application) depends only on the concatenation of the reads. Tied to the real framer by "
                 "replaying every consume/frames operation of H1 (all 2^16 length fields, every single/double cut of short streams) and to TCPAllocation.BindConnection by H10.",
         "design_ref": "DESIGN.md §6 C10", "technique": "Lean 4 induction over frame lists and chunk lists + differential correspondence with STUNConn",
@@ -314,7 +315,7 @@ MANIFEST_TEXT.update({
                "DESIGN.md §6 C07", "Lean 4 invariants + exact-expiry theorems + differential correspondence around every horizon"),
     "C08": _mt("chan_bijection invariant (numbers distinct, peers distinct, range) over all reachable states, conflict_400, conflict_iff, rejected_changes_nothing, rebind_no_conflict, emitted_numbers_valid.",
                "DESIGN.md §6 C08", "Lean 4 invariant by induction + differential correspondence"),
-    "C12": _mt("exactly_once over EVERY event history (conservation law: completions + pending = begun), response_matches_by_id, response_other_id_untouched, close_completes_all, "
+    "C12": _mt("exactly_once over EVERY event history (conservation law: completions + pending = begun), fires_terminate (never hangs: gone after at most 7 - nRtx timer firings for every clock, interval and failing write) with fire_interval_bounded, response_matches_by_id, response_other_id_untouched, close_completes_all, "
                "fire_recurrence / timer_rearmed / rtx_schedule (for every RTO: 7 transmissions at the back-off offsets, failure at the 7th firing, table empty), intervals_closed, regenerated constants.",
                "DESIGN.md §6 C12", "Lean 4 conservation law by induction over event histories + symbolic timetable + differential correspondence under virtual time"),
     "C13": _mt("C13Perm: never_forgotten / never_forgotten_any_schedule (concurrent writers at the permission map: a granted permission keeps its entry; proviso regenerated). Inv preserved over every history (permitted => a CreatePermission success covered the IP; ok-state binding => its ChannelBind was confirmed), data_after_permission "
